@@ -28,6 +28,8 @@ def gen_table(rng):
     has_tref = rng.random() < 0.75
     t_ref = Time(rng.uniform(50000, 60000), format="mjd", scale="tcb") if has_tref else None
     s = JokerSamples(t_ref=t_ref, poly_trend=poly, n_offsets=noff)
+    final = s
+    s = {}          # columns are collected first and inserted in a random order below
     Pu = u.day if rng.random() < 0.6 else u.yr
     au = u.rad if rng.random() < 0.55 else u.deg
     Ku = u.km / u.s if rng.random() < 0.6 else u.m / u.s
@@ -57,8 +59,15 @@ def gen_table(rng):
     if lp:
         s["ln_prior"] = rng.normal(size=n)
         s["ln_likelihood"] = rng.normal(size=n)
+    names_in = list(s.keys())
+    shuffled = rng.random() < 0.5
+    if shuffled:
+        names_in = [names_in[j] for j in rng.permutation(len(names_in))]
+    for k in names_in:
+        final[k] = s[k]
+    s = final
     cls = ("n1" if n == 1 else "n2-7" if n <= 7 else "n>7", str(Pu), str(au), str(Ku), poly, noff, has_tref, lp,
-           ksign, wide)
+           ksign, wide, shuffled)
     return s, cls, dict(n=n, P_unit=str(Pu), angle_unit=str(au), K_unit=str(Ku), poly_trend=poly, n_offsets=noff,
                         t_ref=has_tref, logprobs=lp, K_sign=ksign, wide_angles=bool(wide))
 
@@ -99,12 +108,17 @@ def run(ctx):
             s.std(); ops.append("std")
             s.median_period(); ops.append("median_period")
             # pack / unpack
-            for nonlinear_only in (True, False):
-                arr, units = s.pack(nonlinear_only=nonlinear_only)
+            for nonlinear_only in (True, False, "explicit"):
+                if nonlinear_only == "explicit":
+                    # an explicit column order (any subset, any order)
+                    nm_ = [s.par_names[j] for j in rng.permutation(len(s.par_names))[:int(rng.integers(1, len(s.par_names) + 1))]]
+                    arr, units = s.pack(names=nm_)
+                else:
+                    arr, units = s.pack(nonlinear_only=nonlinear_only)
                 back = JokerSamples.unpack(arr, units, t_ref=s.t_ref, poly_trend=s.poly_trend, n_offsets=s.n_offsets)
                 extra += 1
                 names = list(units.keys())
-                want_names = ["P", "e", "omega", "M0", "s"] if nonlinear_only else s.par_names
+                want_names = nm_ if nonlinear_only == "explicit" else ["P", "e", "omega", "M0", "s"] if nonlinear_only else s.par_names
                 bad = None
                 if names != want_names or back.par_names != want_names:
                     bad = "names %r -> %r" % (want_names, back.par_names)
